@@ -7,8 +7,9 @@ Driver for graph file I/O (C14).
 
   wgraph fmt ty <name> <graph>   text written by writeGraph:  `OK <c> <#cp> cp…`, where c = 1 iff the
                                  model's lexer maps the text to the rows of the model's row writer
-  rgraph fmt ty <text>           `OK <view>` | `ERR <exception>`  (lexer + reader + dag test)
-  rtrip  fmt ty <name> <graph>   rgraph of the text of wgraph
+  rgraph fmt ty <text>           `OK <view>` | `ERR <exception>`  (lexer + reader + dag test; the text comes from a StringIO)
+  rgraphf fmt ty <text>          the same for a text-mode FILE (universal newlines: "\r\n", "\r" → "\n" first)
+  rtrip  fmt ty <name> <graph>   rgraph of the text of wgraph   (rtripf: rgraphf of it)
   relabel ty k <nodes> <edges>   k = 0: integer labels, k = 1: string labels, k = 2: string labels as the dot
                                  branch of readGraph treats them (all-digit names → ints) (nodes `<#> <str>…`, edges
                                  `<#> <str> <str> …`): normalize + from_networkx + dag test (ty ≠ bipartite)
@@ -67,15 +68,6 @@ def anyG (ty : GType) : P (Except Err AnyG) :=
 def fmtText (s : Str) : String :=
   toString s.length ++ s.foldl (fun acc c => acc ++ " " ++ toString c.toNat) ""
 
-/-- read a text: lexer, reader, dag test -/
-def readText (fmt : Fmt) (ty : GType) (s : Str) : Except Err AnyG :=
-  match checkArgs ty fmt with
-  | .error e => .error e
-  | .ok () =>
-    match lexText fmt s with
-    | some rows => readGraph ty rows
-    | none => .error .runtimeError   -- gml / dot: third-party parsers, not modelled
-
 def handle (opname : String) (a : Args) : Option String :=
   match opname with
   | "wgraph" => run (do
@@ -90,13 +82,22 @@ def handle (opname : String) (a : Args) : Option String :=
           | _, .error e => err e)) a
   | "rgraph" => run (do
       let fmt ← pFmt; let ty ← pTy; let t ← chars
-      pure (fmtExcept viewAny (readText fmt ty t))) a
+      pure (fmtExcept viewAny (readText false ty fmt t))) a
+  | "rgraphf" => run (do
+      let fmt ← pFmt; let ty ← pTy; let t ← chars
+      pure (fmtExcept viewAny (readText true ty fmt t))) a
   | "rtrip" => run (do
       let fmt ← pFmt; let ty ← pTy; let name ← chars; let g ← anyG ty
       pure (fmtExcept viewAny (do
         let G ← g
         let t ← writeText name ty fmt G
-        readText fmt ty t))) a
+        readText false ty fmt t))) a
+  | "rtripf" => run (do
+      let fmt ← pFmt; let ty ← pTy; let name ← chars; let g ← anyG ty
+      pure (fmtExcept viewAny (do
+        let G ← g
+        let t ← writeText name ty fmt G
+        readText true ty fmt t))) a
   | "relabel" => run (do
       let ty ← pTy; let k ← int
       match k with
